@@ -722,7 +722,7 @@ func vC05Str(rng *rand.Rand, max int) string {
 func (wd *vC05World) randExtra() []byte {
 	sizes := []int{0, 1, 31, 32, 63, 64, 65, 95, 96, 97, 255, 256, 257, 1024, 1025, 2599, 4096}
 	n := sizes[wd.rng.Intn(len(sizes))]
-	if wd.rng.Intn(60) == 0 {
+	if wd.rng.Intn(150) == 0 {
 		n = []int{1024*1024*4 - 400, 1024 * 1024 * 4, 1024 * 1024, 65536, 65536}[wd.rng.Intn(5)]
 	}
 	b := make([]byte, n)
@@ -891,9 +891,9 @@ func (wd *vC05World) template() *vC05Cand {
 		switch {
 		case cells.IsInt64() && cells.Int64() <= 24: // exactly at / one off the paid allowance
 			n = int(cells.Int64())*1024 + rng.Intn(3) - 1
-		case rng.Intn(12) == 0 && cells.IsInt64() && cells.Int64() < 4096:
+		case rng.Intn(40) == 0 && cells.IsInt64() && cells.Int64() < 4096:
 			n = int(cells.Int64())*1024 + rng.Intn(3) - 1
-		case rng.Intn(25) == 0: // the absolute capacity, with and without room for the rest of the transaction
+		case rng.Intn(60) == 0: // the absolute capacity, with and without room for the rest of the transaction
 			n = 1024*1024*4 - rng.Intn(2)*600
 		default:
 			n = []int{0, 256, 257, 1024, 5000}[rng.Intn(5)]
@@ -1535,11 +1535,19 @@ func (wd *vC05World) mutateSigs(ver *common.VersionedTransaction) string {
 			}
 		}
 		return "sig-many-entries"
-	default:
+	case 10:
 		if n := len(ver.SignaturesMap); n > 0 {
 			ver.SignaturesMap = append(ver.SignaturesMap, ver.SignaturesMap[rng.Intn(n)])
 		}
 		return "sig-duplicate-map"
+	default: // a genuine signature over this payload by a key that does not own the input
+		if n := len(ver.SignaturesMap); n > 0 {
+			m := ver.SignaturesMap[rng.Intn(n)]
+			k := wd.addr().PrivateSpendKey
+			sig := k.Sign(ver.PayloadHash())
+			m[uint16(rng.Intn(2))] = &sig
+		}
+		return "sig-foreign-key"
 	}
 }
 
@@ -1671,7 +1679,7 @@ func TestVerif_C05(t *testing.T) {
 		r.Note("node_cancel_unreachable", "every node-cancel transaction is rejected by Validate on this tree ("+wd.cancelErr+"), so no cancel-typed output can exist in a reachable ledger")
 	}
 
-	n := r.N(24000, 900000)
+	n := r.N(20000, 800000)
 	classes := map[string]int{}
 	accepted := 0
 	validations := 0
@@ -1738,7 +1746,7 @@ func TestVerif_C05(t *testing.T) {
 				if len(hexTx) > 20000 {
 					hexTx = hexTx[:20000] + "...(truncated)"
 				}
-				r.Violation("C05|"+site+"|"+class,
+				r.Violation("C05|"+site+"|via-"+vC05Stage(stack),
 					fmt.Sprintf("Validate panicked in %s on a decodable %s transaction (template %s, mutations %v): %v", site, class, c.kind, c.muts, vC05Short(pv)),
 					map[string]any{"tx": hexTx, "tx_bytes": len(enc), "snapshot_time": ts, "fork": fork, "template": c.kind, "mutations": c.muts,
 						"panic": vC05Short(pv), "stack": vC05Trim(stack)})
@@ -1772,6 +1780,37 @@ func TestVerif_C05(t *testing.T) {
 		r.Inconclusive(fmt.Sprintf("only %d distinct Validate outcomes", len(classes)))
 	}
 	r.Finish()
+}
+
+// vC05Stage names the validation stage the panic happened in: the function
+// called directly by Validate on the panicking stack. Together with the panic
+// site it identifies the defect independently of the generator path and of the
+// transaction type (the type is only part of the signature when the stage is
+// the type-specific validator itself).
+func vC05Stage(stack string) string {
+	var fns []string
+	for _, l := range strings.Split(stack, "\n") {
+		if l == "" || strings.HasPrefix(l, "\t") || strings.HasPrefix(l, "goroutine ") {
+			continue
+		}
+		fns = append(fns, l)
+	}
+	for i, f := range fns {
+		if strings.Contains(f, "common.(*VersionedTransaction).Validate(") {
+			if i == 0 || !strings.Contains(fns[i-1], "MixinNetwork/mixin/") {
+				return "Validate"
+			}
+			c := fns[i-1]
+			if j := strings.LastIndex(c, "("); j > 0 {
+				c = c[:j]
+			}
+			if j := strings.LastIndex(c, "."); j >= 0 {
+				c = c[j+1:]
+			}
+			return c
+		}
+	}
+	return "unknown"
 }
 
 func vC05Short(v any) string {
